@@ -217,7 +217,7 @@ def rule_C08(env):
                 res.add("R08.a", "generate_internal/memo-not-cleared", "a generation call uses the simulated memo before clearing it", loc)
             if g.h.proto_emitted.value is not None:
                 res.add("R08.a", "generate_internal/proto_emitted-not-reset", "a generation call reads State.proto_emitted before resetting it", loc)
-            for fld in g.h.extra_scratch_read_at_entry():
+            for fld in g.h.extra_scratch_read_at_entry(g.atoms, g.writes):
                 res.add("R08.a", "generate_internal/state.%s-read-before-reset" % fld,
                         "a generation call reads State.%s as left by the previous call (it is not reset at the start of the call)" % fld, loc)
             ch = g.h.config_changes()
@@ -229,6 +229,36 @@ def rule_C08(env):
                 if not (isinstance(r, G.OutCopy) and r.nwrites == len(g.writes)):
                     res.add("R08.a", "generate_internal/return-not-output", "the value returned is not a copy of the complete output buffer", loc)
     res.floor("R08.a", 6, "generate_internal leaves")
+    # R08.e: Generator fields this analysis has no role for.  A field no generation code writes is configuration (its value is
+    # arbitrary but fixed, every other rule already holds for all its values).  A field generation code writes is per-pickle
+    # state: it must not be read as left by the previous call - neither by generate_internal before it rewrites it, nor by an
+    # emission / collapse leaf unless generate_internal has rewritten it before the first opcode.
+    written, read_later = set(), set()
+    all_gen = [g for ver in (0, 3, 5) for g in gen_leaves(env, ver)]
+    for g in all_gen:
+        written |= set(g.h.extra_gen_changed())
+    for unsafe in (False, True):
+        for op, lvs in PV.get_trans(env, unsafe).items():
+            if isinstance(lvs, Exception):
+                continue
+            for lf in lvs:
+                written |= {x for x in (getattr(lf, "extra_changed", None) or []) if not x.startswith("state.")}
+                read_later |= {x for x in (getattr(lf, "extra_read", None) or []) if not x.startswith("state.")}
+    for lf in env.memo("cleanup_leaves", lambda: GA.cleanup_leaves(env)):
+        written |= {x for x in (getattr(lf, "extra_changed", None) or []) if not x.startswith("state.")}
+        read_later |= {x for x in (getattr(lf, "extra_read", None) or []) if not x.startswith("state.")}
+    for g in all_gen:
+        res.count("R08.e")
+        for fld in g.h.extra_gen_read_at_entry(g.atoms, g.writes):
+            if fld in written:
+                res.add("R08.a", "generate_internal/%s-read-before-reset" % fld,
+                        "Generator.%s is written during generation and read by generate_internal as left by the previous call" % fld, loc)
+        firsts = [e for e in g.events if e[0] == "extras_rewritten"]
+        if firsts:
+            for fld in sorted(written & read_later):
+                if fld not in firsts[0][1]:
+                    res.add("R08.a", "generate_internal/%s-not-reset-before-first-opcode" % fld,
+                            "Generator.%s is per-pickle state read while opcodes are emitted, but generate_internal does not rewrite it before the first opcode" % fld, loc)
     # R08.b: reset() clears every scratch field (field roles are fixed in absgen.Ctx.make_generator; unknown fields fail closed)
     k_reset = prog.find("generator::Generator::reset")
     mf = H.models_factory(prog, ctx, None)
@@ -356,6 +386,14 @@ def rule_C11(env):
                 continue
             n += 1
             res.count("P1")
+            if not GA.out_cleared_before_use(g):
+                res.add("P0", "generate_internal/output-not-empty-at-entry", "the output buffer is not cleared before the header is written: "
+                        "opcodes of an earlier pickle are counted with this one", loc)
+            i_sc = next((i for i, e in enumerate(g.events) if e[0] == "stack_clear"), None)
+            i_su = next((i for i, e in enumerate(g.events) if e[0] in ("push", "pop", "pop_empty", "depth_bound") or e[0] == "call"), None)
+            if i_sc is None or (i_su is not None and i_su < i_sc) or g.h.stack.orig:
+                res.add("P0", "generate_internal/stack-not-empty-at-entry", "the simulated stack is not cleared before the first body opcode: "
+                        "the collapse tail is no longer bounded by 2T+1", loc)
             lo, hi = rng[0][1], rng[0][2]
             if lo != 0:
                 res.add("P2", "generate_internal/loop-start", "generation loop starts at %r" % (lo,), loc)
